@@ -240,15 +240,33 @@ pub fn gen(jura_kind: bool, seed: u64, cases: usize, flavour: &str, path: &str) 
         g.stats.bump("cases");
         // one or two datasets; dates strictly increasing (sometimes shuffled or repeated: malformed stream)
         let two = g.rng.chance(1, 2);
-        let names: Vec<&str> = if two { vec!["D", "E"] } else { vec!["D"] };
+        // one case in twelve leaves the ordinary regime: a crowd of backtests, a long dataset walked to its end, or
+        // dataset names that are unusual but legal in a URL path segment (reserved characters `/ ? # %` are outside
+        // what the transport can carry unchanged and are not generated: DESIGN section 13)
+        let stress = if g.rng.chance(1, 12) { 1 + g.rng.below(3) } else { 0 };
+        g.stats.bump(match stress { 1 => "stress_many_backtests", 2 => "stress_long_dataset", 3 => "stress_unusual_names", _ => "ordinary_regime" });
+        let odd: [&str; 4] = ["a.b-c_d~e", "UPPERlower0123456789", "a!b$c&d'e(f)g*h+i,j;k=l:m@n", "NNNNNNNNNNNNNNNNNNNNNNNNNNNNNNNNNNNNNNNNNNNNNNNNNNNNNNNNNNNNNNNNNNNNNNNNNNNNNNNNNNNNNNNNNNNNNNNNNNNNNNNNNNNNNNNNNNNNNNNNNNNNNNNN"];
+        let o1 = g.rng.below(4) as usize;
+        // the clock in epoch milliseconds, a quarter of a second apart
+        let big_dates = stress != 0 && g.rng.chance(1, 3);
+        if big_dates {
+            g.stats.bump("stress_epoch_millisecond_dates");
+        }
+        let names: Vec<&str> = if stress == 3 {
+            if two { vec![odd[o1], odd[(o1 + 1) % 4]] } else { vec![odd[o1]] }
+        } else if two {
+            vec!["D", "E"]
+        } else {
+            vec!["D"]
+        };
         let mut lens: HashMap<&str, u64> = HashMap::new();
-        for name in &names {
+        for (ni, name) in names.iter().enumerate() {
             // an empty dataset makes `init` / `single` panic (an unwrap); inside an actix handler that poisons
             // the shared Mutex, so the transport streams leave it out
-            let nd = if !flavour.contains("http") && g.rng.chance(1, 20) { 0 } else if long { 1 + g.rng.below(40) } else { 1 + g.rng.below(8) };
+            let nd = if !flavour.contains("http") && g.rng.chance(1, 20) { 0 } else if stress == 2 { 60 + g.rng.below(240) } else if long { 1 + g.rng.below(40) } else { 1 + g.rng.below(8) };
             lens.insert(*name, nd);
             g.line(&format!("DATA {} 2 {}", name, syms.join(" ")));
-            let mut ds: Vec<i64> = (0..nd as i64).map(|d| 100 + 3 * d + if *name == "E" { 1 } else { 0 }).collect();
+            let mut ds: Vec<i64> = (0..nd as i64).map(|d| if big_dates { 1_700_000_000_000 + 250 * d + if ni == 1 { 125 } else { 0 } } else { 100 + 3 * d + if ni == 1 { 1 } else { 0 } }).collect();
             if !ds.is_empty() && g.rng.chance(1, 12) {
                 g.stats.bump("dataset_shuffled_or_repeated_dates");
                 let n = ds.len();
@@ -279,16 +297,38 @@ pub fn gen(jura_kind: bool, seed: u64, cases: usize, flavour: &str, path: &str) 
         }
         let single = !two && g.rng.chance(2, 3);
         if single {
-            g.line("SINGLE D");
+            g.line(&format!("SINGLE {}", names[0]));
         } else {
             g.line("CREATE");
         }
         let mut qty = 0u64;
-        let len = if long { 20 + g.rng.below(100) } else { 5 + g.rng.below(50) };
+        if stress == 1 && g.rng.chance(1, 3) {
+            // past 256 live backtests
+            let n = 257 + g.rng.below(40);
+            for _ in 0..n {
+                g.line(&format!("INIT {}", names[0]));
+            }
+            g.stats.bump("stress_more_than_256_backtests");
+        }
+        if stress == 2 && g.rng.chance(1, 4) {
+            // more than 1024 orders handed to one backtest between two ticks
+            let n = *g.rng.pick(&[257u64, 1025, 1100]);
+            if single {
+                for k in 0..n {
+                    if jura_kind {
+                        g.line(&format!("INS 0 {} {} {} {} L:gtc 0 0", k % 2, k % 2, fb(3.0), fb(1000.0 + k as f64)));
+                    } else {
+                        g.line(&format!("INS 0 {} {} {} -", k % 2, syms[0], fb(1000.0 + k as f64)));
+                    }
+                }
+                g.stats.bump("stress_more_than_1024_orders_between_ticks");
+            }
+        }
+        let len = if stress == 2 { 300 + g.rng.below(500) } else if stress == 1 { 150 + g.rng.below(250) } else if long { 20 + g.rng.below(100) } else { 5 + g.rng.below(50) };
         for _ in 0..len {
             // ids 0..4, some never created; the clock flavour concentrates on few backtests so that
             // whole datasets get walked
-            let bt = if long { g.rng.below(3) } else { g.rng.below(5) };
+            let bt = if stress == 1 { if g.rng.chance(1, 4) { 250 + g.rng.below(60) } else { g.rng.below(24) } } else if stress == 2 { g.rng.below(2) } else if long { g.rng.below(3) } else { g.rng.below(5) };
             match g.rng.below(14) {
                 0 | 1 => {
                     // unknown names: unrelated, and near misses of a registered name (letter case, prefix, extension)
